@@ -58,6 +58,14 @@ func runC30RotateUpdate(c *Ctx) {
 				if isOldTLS(st.Val) {
 					keepsConfig, cfgAt = true, in
 				}
+				// the stored value is chosen by a helper's result: one of the merged values is the previous one
+				if phi, isPhi := unwrap(st.Val).(*ssa.Phi); isPhi {
+					for _, e := range phi.Edges {
+						if isOldTLS(e) {
+							keepsConfig, cfgAt = true, in
+						}
+					}
+				}
 			}
 		}
 	}
